@@ -1,6 +1,8 @@
 package eng
 
 import (
+	"path/filepath"
+	"os"
 	"fmt"
 	"go/ast"
 	"go/constant"
@@ -110,6 +112,9 @@ type Exec struct {
 	readBank   bool
 	pureDepth  int
 	selfFn     *FuncInfo
+	pruneMode  bool
+	pruneMemo  map[*Term]bool
+	Pruned     int
 	skipWrapped bool
 }
 
@@ -594,6 +599,19 @@ func (x *Exec) execIf(s *State, st *ast.IfStmt) *State {
 			return x.execStmt(s, st.Else)
 		}
 		return s
+	}
+	if x.pruneMode && x.cur.top {
+		if x.infeasible(And(s.PC, c)) {
+			s.Assume(Not(c))
+			if st.Else != nil {
+				return x.execStmt(s, st.Else)
+			}
+			return s
+		}
+		if x.infeasible(And(s.PC, Not(c))) {
+			s.Assume(c)
+			return x.execBlock(s, st.Body.List)
+		}
 	}
 	sa := s.Clone()
 	sa.Assume(c)
@@ -1083,4 +1101,35 @@ func (x *Exec) recoverActive() bool {
 		}
 	}
 	return false
+}
+
+
+// infeasible asks the solvers (1 s) whether t is unsatisfiable. Used only to skip branches of the function under
+// contract that its precondition excludes (`prune`): skipping an unsatisfiable path is sound.
+func (x *Exec) infeasible(t *Term) bool {
+	if t.Op == "false" {
+		return true
+	}
+	if t.Op == "true" {
+		return false
+	}
+	if x.pruneMemo == nil {
+		x.pruneMemo = map[*Term]bool{}
+	}
+	if v, ok := x.pruneMemo[t]; ok {
+		return v
+	}
+	f := triggerInstantiate(t)
+	f = And(f, modaddrFacts(f))
+	memo := map[*Term]*Term{}
+	f = relaxNL(dropQuantAsserted(f, true), memo)
+	script := SMTScript([]*Term{f}, false, "; branch feasibility\n")
+	dir := filepath.Join(os.TempDir(), fmt.Sprintf("govc-prune-%d", os.Getpid()))
+	r := Solve(dir, fmt.Sprintf("b%d", len(x.pruneMemo)), script, 1, []string{"z3-new"})
+	res := r.Status == "unsat"
+	x.pruneMemo[t] = res
+	if res {
+		x.Pruned++
+	}
+	return res
 }
